@@ -420,6 +420,9 @@ func compareView(v *rig.View, a *wire.AReq, ordered bool, limit int) string {
 		}
 	}
 	if fmt.Sprint(gt) != fmt.Sprint(wt) {
+		if a.NoAnnounce && len(gt) == 0 {
+			return "" // trailer fields that no Trailer header announced may be left out
+		}
 		return fmt.Sprintf("trailers %v want %v", gt, wt)
 	}
 	return ""
